@@ -263,7 +263,10 @@ func (conR *ConsensusManager) Receive(chID byte, src p2p.Peer, msgBytes []byte) 
 	// Get peer states
 	ps, ok := src.Get(types.PeerStateKey).(*PeerState)
 	if !ok {
-		panic(fmt.Sprintf("Peer %v has no state", src))
+		// the peer was removed (its state is cleared) while packets it had
+		// already sent were still being delivered
+		conR.Logger.Debug("Receive: peer has no state", "peer", src)
+		return
 	}
 
 	switch chID {
